@@ -61,6 +61,8 @@ pub enum ModeSpec {
     Regular(u16),
     Dir(u16),
     Symlink(u16),
+    /// FileOptions::mode(<integer>) as given (e.g. permission bits without type bits)
+    Raw(i32),
 }
 
 impl ModeSpec {
@@ -71,6 +73,7 @@ impl ModeSpec {
             ModeSpec::Regular(p) => 0o100000 | (p & 0o7777),
             ModeSpec::Dir(p) => 0o040000 | (p & 0o7777),
             ModeSpec::Symlink(p) => 0o120000 | (p & 0o7777),
+            ModeSpec::Raw(m) => *m as u16,
         }
     }
 }
@@ -374,6 +377,7 @@ impl BuildSpec {
                 ModeSpec::Regular(p) => o = o.mode(FileMode::regular(p)),
                 ModeSpec::Dir(p) => o = o.mode(FileMode::dir(p)),
                 ModeSpec::Symlink(p) => o = o.mode(FileMode::symbolic_link(p)),
+                ModeSpec::Raw(m) => o = o.mode(m),
             }
             if let Some(c) = &f.caps {
                 o = o.caps(c.clone())?;
